@@ -103,6 +103,14 @@ def check_C20(ctx):
         for v, txt in enumerate(variants):
             cases.append(dict(id="L%d/%d" % (i, v + 1), src=txt))
             pairs.append(("L%d/0" % i, "L%d/%d" % (i, v + 1)))
+    # literals at the edge of the int range under unary minus, with and without redundant parentheses
+    for k, (x, y) in enumerate([(b"print -9223372036854775808\n", b"print -(9223372036854775808)\n"), (b"print -0x8000000000000000\n", b"print -(0x8000000000000000)\n"),
+                                (b"print -9223372036854775807 - 1\n", b"print (-(9223372036854775807)) - (1)\n"),
+                                (b"def b { m = -9223372036854775808 }\n", b"def b { m = (-(9223372036854775808)) }\n"),
+                                (b"print - 5\n", b"print -(5)\n"), (b"print not not 1\n", b"print not (not (1))\n"), (b"print -1.5e3\n", b"print -((1.5e3))\n")]):
+        cases.append(dict(id="X%d/0" % k, src=x))
+        cases.append(dict(id="X%d/1" % k, src=y))
+        pairs.append(("X%d/0" % k, "X%d/1" % k))
     # strings are opaque; comments end at CR or LF and nowhere else (expected output computed here, no model)
     direct = []
     for body in [b"# not a comment", b"a;b", b"( )", b" \t\v\f ", b"x = 1 # y", "\u0085 ".encode(), b"{}", b"#", b";;", b"a  b",
@@ -211,6 +219,7 @@ def check_C08(ctx):
         layouts.append((b"#" + b"y" * 98 + b"\n") * 700)       # offsets beyond 67823
     errs_compile = [b"print 1 +\n", b"var x = )\n", b"print @\n", b"print 12abc\n", b"eval\n", b"print 08\n", b"}\n",
                     b'print "abc\n', "var é = 1\n".encode(), b"def b { x = }\n", b"print (1\n", b"bind t -> map\n"]
+    errs_compile += [b'def "100%" {}\n', b'var "%d items" = 3\n', b'def t {}\nbind t:"%s" -> slice\n', b'print "%v" "%!x"\n', b"var %x = 1\n"]
     errs_runtime = [b"print 1 / 0\n", b'print "a" - 1\n', b"def b { print nosuch }\n", b"print -nil\n",
                     b"def t {}\nbind t -> struct\nbind t -> struct\nprint 1\n", "print \"é\" < 1\n".encode(), b"bind t -> struct\n",
                     b"def a { def b {}\n def b {} }\n", b"print (1 +\n   2) / (3 -\n 3)\n"]
@@ -236,7 +245,8 @@ def check_C08(ctx):
         srcs.append(decl + b"def b {\n  x = v0\n}\n")
         srcs.append(b"print " + b"1+(" * n + b"1" + b")" * n + b"\n")
     srcs.append(b"def a {" * 16 + b"\n  def deep { x = 1 }\n" + b"}" * 16 + b"\n")
-    cases = [dict(id="d%d" % i, src=s) for i, s in enumerate(srcs)]
+    # every fourth case: an unrelated source is parsed between compiling and running (positions belong to the program)
+    cases = [dict(id="d%d" % i, src=s, opts=("I" if i % 4 == 0 else "")) for i, s in enumerate(srcs)]
     rs, missing, err = interp.run(ctx, cases)
     decide(ctx, rs, missing, err, {"log", "err", "parts"}, "C08_compile_diag/C08_runtime", "diag", spec=False)
     # implementation against the documented rule, no model: token quoted ends at the reported offset
@@ -382,7 +392,7 @@ def instr_offsets(code):
     return out if i == len(code) else None
 
 
-SEQ = ["", "t", "", "ts", "s", ""]
+SEQ = ["", "t", "", "ts", "s", "", "W", ""]
 
 
 def check_C19(ctx):
@@ -393,12 +403,29 @@ def check_C19(ctx):
     progs += [blocks_program(rng, with_bind=True) for _ in range(ctx.n(40, 400))]
     progs += [b"print 1 +\n", b"print 1/0\n", b"", b"var a = 1 and 2 or 3\nprint a\n", b"def t {}\nbind t -> struct\nbind t:all -> slice\n",
               b"print " + b"1+(" * 200 + b"1" + b")" * 200 + b"\n", b"".join(b"var v%d = %d\n" % (i, i) for i in range(300)) + b"print v299\n",
-              b'def a "n" { x = "' + b"s" * 300 + b'"\n print x }\n']
+              b'def a "n" { x = "' + b"s" * 300 + b'"\n print x }\n',
+              b"def t {}\ndef t {}\nbind t:first -> struct\nbind t:last -> struct\nbind t:all -> slice\nbind t:first -> slice\nprint 1\n"]
     cases = []
     for i, p in enumerate(progs):
         for o in COMBOS:
             cases.append(dict(id="o%d/%s" % (i, o), src=p, opts=o, name=rng.choice(["input", "", "f.bcl"]) if False else "input"))
         cases[-len(COMBOS)]["seq"] = SEQ       # the plain case also executes ONE Prog under a sequence of option sets
+    # the instruction that overflows the operand stack is traced AND counted (implementation only: a trace of a full stack is
+    # a megabyte of text per run, so these are not run on the model)
+    heavy = [dict(id="hv%d" % k, src_hex=h.hex(), opts="ts", name="input") for k, h in enumerate([
+        b"".join(b"var v%d = 1\n" % i for i in range(1024)) + b"print 1\n",
+        b"".join(b"var v%d = 1\n" % i for i in range(1023)) + b"print 1 + 1\n"])]
+    hres, _, _ = ctx.probe("interp", heavy, tag="heavy")
+    for c in heavy:
+        r = hres.get(c["id"])
+        if r:
+            ctx.count(1, c["id"])
+            out = bytes.fromhex(r["obs"]["Out"])
+            mm = re.search(rb"xstats.opsRead:\s+(\d+)", out)
+            ntrace = len(re.findall(rb"^             \d+: ", out, re.M))
+            if mm and int(mm.group(1)) != ntrace:
+                ctx.violation("trace lists %d instructions, statistics report %s (a program that ends in stack overflow)" % (ntrace, mm.group(1).decode()),
+                              dict(src="1024 / 1023 variables, then a push", opts="ts"), impl=r["obs"]["Err"], theorem="C19_trace_count", key="trace-count-overflow")
     # a writer on which every write fails: results must not depend on which introspection options are on
     fcases = []
     for i, p in enumerate(interp.drop_excluded(ctx, progs[:ctx.n(40, 400)] + progs[-8:])):
@@ -604,7 +631,13 @@ def check_C06(ctx):
     T = lambda *fs: dict(k="struct", fields=list(fs))
     odd = T(fld("Name", STR), fld("Opts", dict(k="slice", elem=STR)), fld("M", dict(k="map")), fld("P", dict(k="ptr", elem=dict(k="named", name="Inner"))),
             fld("Int", INT), fld("Any", dict(k="iface")), fld("E", dict(k="ifaceN")), fld("Inner", dict(k="named", name="Inner"), emb=True))
+    oddp = T(fld("Name", STR), fld("Inner", dict(k="ptr", elem=dict(k="named", name="Inner")), emb=True), fld("Port", INT))
     ucases = []
+    for k, body in enumerate([b"deep = 1", b"shared = \"s\"", b"def inner { deep = 1 }", b"port = 1\n deep = 2"]):
+        for bind in (b"bind t -> struct", b"bind t:all -> slice"):
+            src = b"def t \"x\" {\n " + body + b"\n}\n" + bind + b"\n"
+            ucases.append(dict(id="up%d%s" % (k, "s" if b"slice" in bind else ""), type=(dict(k="slice", elem=oddp) if b"slice" in bind else oddp),
+                               src_hex=src.hex(), prev=0))
     for k, body in enumerate([b"def opts { a = 1 }", b"def m { a = 1 }", b"def p { deep = 1 }", b"def int { }", b"def any { x = 1 }", b"def e { }",
                               b"def inner { deep = 2 }", b"opts = 1", b"m = nil", b"p = \"s\"", b"int = 1.5", b"deep = \"x\"", b"name = 5",
                               b"def name { }", b"def opts \"n\" { }\n def opts \"m\" { }"]):
@@ -642,6 +675,11 @@ def check_C10(ctx):
     srcs = [g.program() for _ in range(ctx.n(400, 4000))]
     srcs += [blocks_program(rng, with_bind=True) for _ in range(ctx.n(100, 1000))]
     srcs += [scope_program(rng, 6, bad=0.0) for _ in range(ctx.n(100, 1000))]
+    # a literal-false / literal-true left operand whose dead right operand mentions names for the first time
+    srcs += [b"def b { y = false and (zz = 1)\n zz = 2\n print zz }\n", b"def b { y = true or nm\n nm = 42\n print nm }\n",
+             b"def b { a = 1\n y = false and q1\n def q1 { }\n z = true or q2\n q2 = \"s\" }\nbind b -> struct\n",
+             b"def b { y = false and (k1 + k2 + \"lit\" + 7.5)\n k2 = 1\n k1 = 2\n print k1 + k2\n s = \"lit\" }\n",
+             b"var t = true\ndef b { y = t or nm2\n nm2 = 42 }\n", b"def b { y = false and (def_ = 1) or (w = 2)\n def_ = 3\n print w }\n"]
     # long short-circuit chains, operands longer than 240 and (thorough) 65535 bytes of code, nesting, many locals
     for n in [1, 2, 10, 100, 1000]:
         srcs.append(b"print 1" + b" and 1" * n + b"\n")
